@@ -4,7 +4,7 @@
 PATCH=$1; shift
 WT=/var/tmp/devseed_$$
 git -C /repo worktree add --detach $WT HEAD -q || exit 2
-( cd $WT && git apply "$PATCH" ) || { echo "PATCH-DOES-NOT-APPLY $PATCH"; git -C /repo worktree remove --force $WT; exit 2; }
+( cd $WT && { git apply "$PATCH" 2>/dev/null || { git apply --3way "$PATCH" >/dev/null 2>&1 && git reset -q; }; } ) || { echo "PATCH-DOES-NOT-APPLY $PATCH"; git -C /repo worktree remove --force $WT; exit 2; }
 for p in "$@"; do
   out=$(cd ${VDIR:-/verif} && HGMC_REPO=$WT HGMC_OUT=/var/tmp/devout_$$ ./check $p --tier ${TIER:-quick} 2>&1)
   if echo "$out" | grep -q "^VIOLATION"; then echo "DETECTED $(basename $(dirname $PATCH))/$(basename $PATCH) by $p: $(echo "$out" | grep -A1 '^VIOLATION' | grep -m1 'sig=' | cut -c1-180)";
